@@ -291,7 +291,7 @@ def check_cases(ctx, cases):
                     terms.append("enc_opt_node (parse %s)" % cstr(ms))
             entry["muts"] = muts
         plan.append(entry)
-    vals = ctx.coq_eval("c02", REQ, terms, chunk=120)
+    vals = nsgen.coq_eval_retry(ctx, "c02", REQ, terms, chunk=120)
     for c, o, e in zip(cases, observed, plan):
         case = {"route": c["route"], "mapping": c["mapping"], "src": c.get("src"), "tree": c.get("tree")}
         if c["route"] == "moved":
